@@ -453,7 +453,7 @@ func (d *driver) activeCase(class string, workers int, batches [][]tlItem) {
 			ss = append(ss, fmt.Sprintf("(%s, (%d)%%N)", bytesCoq(f), sizes[f]))
 			tp := frac.VerifC13GetActiveProvider(tl, f)
 			var toks []string
-			for t := uint32(1); t <= tp.LastTID(); t++ {
+			for t := uint32(1); t <= tp.LastTID() && int(t) <= len(fields[f])+2; t++ { // bounded: a wrong LastTID must not hang the driver
 				v, ok := func() (v []byte, ok bool) {
 					defer func() {
 						if r := recover(); r != nil {
